@@ -123,6 +123,7 @@ type Case struct {
 	Class      string      `json:"class"`           // generator stream / kind, for the distribution
 	Known      string      `json:"known,omitempty"` // id of the known-finding class the input lies in, if any
 	Index      int         `json:"i"`
+	Cost       float64     `json:"-"` // share of a shard this case takes, relative to an ordinary case (0 means 1): cheap cases fill larger shards
 }
 
 // Suite collects the cases of one run.
@@ -167,10 +168,18 @@ func (s *Suite) Write(dir string, seed int64, tier string, only int) error {
 		cases = cases[only : only+1]
 	}
 	var shards []shardMeta
-	for first := 0; first < len(cases); first += shard {
-		end := first + shard
-		if end > len(cases) {
-			end = len(cases)
+	for first, end := 0, 0; first < len(cases); first = end {
+		// a shard holds cases up to a total cost of `shard` (every case costs 1 unless it says otherwise)
+		acc := 0.0
+		for end = first; end < len(cases); end++ {
+			c := cases[end].Cost
+			if c <= 0 {
+				c = 1
+			}
+			if end > first && acc+c > float64(shard)+1e-9 {
+				break
+			}
+			acc += c
 		}
 		name := fmt.Sprintf("cases_%04d.v", len(shards))
 		var b strings.Builder
